@@ -1,14 +1,19 @@
-from stages import beaconnet
+from stages import beaconnet, httprelay
 
 
 def run(ctx):
     # C01 at handler level: everything persisted (aggregation, sync) verifies for exactly its round,
     # everything served on the peer sync stream equals the stored beacon; whatever peers send.
-    for sch in beaconnet.schemes_for(ctx, 1):
+    schemes = beaconnet.schemes_for(ctx, 1)
+    if ctx.quick:
+        schemes = [schemes[ctx.seed % 2]]
+    for sch in schemes:
         beaconnet.run(ctx, "C01", scheme=sch)
+    # HTTP relay: a 200 answer for round r is exactly the verifying beacon of round r
+    httprelay.run(ctx, httprelay.MON_C01_HTTP)
     try:
         from stages import publicapi
         publicapi.run(ctx, publicapi.MON_C01)
     except ImportError:
-        ctx.notes.append("public API / HTTP serving stage not available in this build")
+        ctx.notes.append("gRPC PublicRand / PublicRandStream stage not available in this build")
     ctx.assumptions += ["the verification oracle is scheme.VerifyBeacon with the pinned group public key, computed by the harness independently of the node under test"]
